@@ -27,7 +27,8 @@ def gen_case(seed, tier):
     iv = ch.pick("config", "iv", [1, 2, 2])
     mv = ch.pick("config", "mv", [1, 2, 2])
     ops.append(["schema", iv, mv])
-    size = ch.pick(W, "size", [1, 10, 100, 200, 1000])
+    # (sizes beyond Python's 8 KiB file buffer matter: only then do two logical writes reach the kernel as two system calls)
+    size = ch.pick(W, "size", [1, 10, 100, 200, 1000, 9000, 20000])
 
     def upload(si_i, shnums, sec, close=True, chunks=None):
         o = [["alloc", si_i, shnums, size, sec, 0]]
